@@ -89,8 +89,17 @@ def _run_async(res, case):
     peer = W.add_peer(sim)
     stats = {"segs_faulted": 0, "multi": False}
 
+    rel = case.get("rel")
+    import geckolib.utils.simulator as simmod
+    import random as _random
+    saved_random = simmod.random
+
     async def main(W):
         spa, tm, ev = await clients.connect_async_spa(W, peer)
+        if rel:
+            # from here on the simulator itself loses requests / segments, by its own (here: seeded) draw
+            simmod.random = _random.Random(int(rel[1]))
+            sim._reliability = float(rel[0])
         try:
             for n, tr in enumerate(case["transfers"]):
                 start, length, retry = tr["start"], tr["len"], tr["retry"]
@@ -161,7 +170,9 @@ def _run_async(res, case):
                 nstatu = sum(1 for w in wire if w[1] == "c2s" and b"<DATAS>STATU" in w[4])
                 seg_faults = sum(1 for w in wire if w[1] == "s2c" and w[5] not in ("deliver",))
                 req_faults = sum(1 for w in wire if w[1] == "c2s" and w[5] not in ("deliver",))
-                faulty = bool(seg_faults or req_faults)
+                faulty = bool(seg_faults or req_faults or rel)
+                if rel and length > SEG:
+                    stats["segs_faulted"] += 1
                 _check_transfer(res, f"transfer #{n}", "async", C_exp, S, C2, ok, start, length, retry, nstatu, faulty,
                                 bool(case.get("jitter")))
                 if seg_faults and length > SEG:
@@ -172,9 +183,15 @@ def _run_async(res, case):
                 if not await W.drain([spa._protocol.queue]):
                     raise SetupFailed("connection did not drain between transfers")
         finally:
+            sim._reliability = 1.0
             await clients.shutdown(tm)
 
-    W.run(main)
+    try:
+        W.run(main)
+    finally:
+        simmod.random = saved_random
+    if rel:
+        res.label("simulator-reliability-below-1")
     res.nontrivial = stats["segs_faulted"] > 0
     return res
 
@@ -297,10 +314,13 @@ def strategy(tier):
     with_statp = st.builds(lambda g, inj: {"start": g[0], "len": g[1], "retry": 3, "c2s": [], "s2c": [], "cyc": False, "statp": inj},
                            _geom(), st.tuples(st.integers(1, 6), st.integers(0, 400)).map(list))
     transfer = st.one_of(transfer, transfer, transfer, with_statp)
+    # the bundled simulator's own reliability knob (it drops whole requests and single segments itself, by a seeded draw)
+    rel = st.one_of(st.none(), st.none(), st.none(), st.tuples(st.sampled_from([0.9, 0.7, 0.5]), st.integers(0, 10**6)).map(list))
     return st.builds(
-        lambda k, seed, trs, j, tg: dict({"k": k, "seed": seed, "transfers": trs, "jitter": j if k == "async" else []}, **({"taggy": tg} if tg else {})),
+        lambda k, seed, trs, j, tg, rel: dict({"k": k, "seed": seed, "transfers": trs, "jitter": j if k == "async" else []}, **({"taggy": tg} if tg else {}),
+                                              **({"rel": rel} if rel and k == "async" else {})),
         st.sampled_from(["async", "async", "threaded"]), st.integers(0, 2**31),
-        st.lists(transfer, min_size=1, max_size=4), jitter, st.sampled_from([0, 0, 1, 2, 3]))
+        st.lists(transfer, min_size=1, max_size=4), jitter, st.sampled_from([0, 0, 1, 2, 3]), rel)
 
 
 def run_case(case) -> Result:
